@@ -1,1 +1,16 @@
 # claims of MANIFEST.json (executed by mkmanifest.py)
+claim("C13", "Coq theorem on the free-monad reader (run_truncated lifted to the loader) + every-offset correspondence run",
+      "Theorems C13_truncation / C13_extension hold for every byte string, every inflate function and every cut offset of the model's loader "
+      "(any file that loads with `rest` left over fails with UnexpectedEof at every cut before the consumed length, and its consumed prefix "
+      "followed by anything loads identically); the check re-proves them, then cuts generated and corpus files at every offset and compares "
+      "model, implementation and the property itself.",
+      "Modelled, not verified: the loader model (Parse.v/Validate.v) against src/parse.rs and the chunk decoders; cut offsets explored exhaustively only on the files of the run.",
+      "DESIGN.md section 5, C13")
+claim("C14", "Coq theorems on read_exact over event schedules (run_s / run_fault) + schedule and fault-injection correspondence run",
+      "Theorems C14_schedule (any schedule of short reads and Interrupted results without a hard error gives the plain result, for every tree of "
+      "read_exact requests, hence for the whole loader), C14_fault_offset and C14_fault_event (a hard error of kind k yields either the plain "
+      "result or Err(IoError k), exactly according to whether the consumed length was reached; never another sprite, never a panic) for all inputs "
+      "and schedules; the check re-proves them and drives the real library through instrumented readers (one byte at a time, random partitions, "
+      "Interrupted before every read, BufReader/Cursor/chain/read_file, a hard error at every offset), comparing with the plain read and with the model.",
+      "Modelled, not verified: std::io::Read::read_exact/read_to_end/Take as in Model/Sched.v; BufReader, File and byteorder are observed only.",
+      "DESIGN.md section 5, C14")
